@@ -369,6 +369,19 @@ func (w *world) isVersion(name string, md5 string) bool {
 	return false
 }
 
+// describesVersion: some registered version of the name has that hash, size and
+// modification time (what the sender's cache calls "the same version")
+func (w *world) describesVersion(name, hash string, size int64, mtimeNs int64) bool {
+	w.regMu.Lock()
+	defer w.regMu.Unlock()
+	for _, v := range w.registry[name] {
+		if v.MD5 == hash && int64(len(v.Data)) == size && v.MTime.UnixNano() == mtimeNs {
+			return true
+		}
+	}
+	return false
+}
+
 // isVersionSize: some registered version of the name has that size
 func (w *world) isVersionSize(name string, size int64) bool {
 	w.regMu.Lock()
@@ -1071,7 +1084,7 @@ func (t *cacheWrap) Iterate(f func(sts.Cached) bool) { t.park(); t.s.cache.Itera
 func (t *cacheWrap) Get(k string) sts.Cached         { t.park(); return t.s.cache.Get(k) }
 func (t *cacheWrap) Add(h sts.Hashed) {
 	t.s.action("cache:add")
-	t.s.w.log.add(wEvent{Kind: "cache_add", Name: h.GetName(), A: h.GetSize(), S: h.GetHash(), Gen: t.s.gen})
+	t.s.w.log.add(wEvent{Kind: "cache_add", Name: h.GetName(), A: h.GetSize(), B: h.GetTime().UnixNano(), S: h.GetHash(), Gen: t.s.gen})
 	t.s.cache.Add(h)
 }
 func (t *cacheWrap) Done(name string, whileLocked func(sts.Cached)) {
